@@ -1168,9 +1168,15 @@ func settle(c *cdi.Cache, dirs []string, probes []string, deadline time.Duration
 	want := observeCache(ref, probes, true)
 	end := time.Now().Add(deadline)
 	var got cacheObs
-	for {
+	for first := true; ; first = false {
 		got = observeCache(c, probes, true)
 		if got.key() == want.key() && fmt.Sprint(got.DirErrs) == fmt.Sprint(wantDirErrs) {
+			return got
+		}
+		if first && got.RefErr != want.RefErr && got.Panic == "" {
+			// An explicit Refresh() rescans under the cache lock: its verdict (error iff a Spec file is in error) is the one of
+			// the directories as they are now, whatever the watcher has or has not seen yet.  The verdict of the FIRST
+			// Refresh() after a change is therefore observed as such, not the one of a later poll.
 			return got
 		}
 		if time.Now().After(end) {
